@@ -136,6 +136,7 @@ pub fn generate(tier: &str, rng: &mut Rng) -> Vec<String> {
     out.extend(gen_e2e(tier, rng));
     out.extend(gen_sided(tier, rng));
     out.extend(gen_more(tier, rng));
+    out.extend(gen_late(tier, rng));
     out
 }
 
@@ -191,6 +192,23 @@ pub fn execute(case: &str) -> String {
         ["run", c, s, l] => {
             let (Some(c), Some(s), Ok(l)) = (caller(c), opt_ns(s), l.parse()) else { return "bad-case".into() };
             run_case(c, s, l)
+        }
+        ["runl", c, s, l, b] => {
+            let (Some(c), Some(s), Some(l), Ok(b)) = (caller(c), opt_ns(s), lat_ns(l), b.parse()) else { return "bad-case".into() };
+            runl_case(c, s, l, b)
+        }
+        ["clil", peer, c, e, l, b] => {
+            let (Some(c), Some(e), Some(l), Ok(b)) = (caller(c), opt_ns(e), lat_ns(l), b.parse()) else { return "bad-case".into() };
+            let peer = match *peer {
+                "silent" => Peer::Silent,
+                "routes" => Peer::Routes,
+                _ => return "bad-case".into(),
+            };
+            clil_case(peer, c, e, l, b)
+        }
+        ["e2el", c, s, e, l, b] => {
+            let (Some(c), Some(s), Some(e), Ok(l), Ok(b)) = (caller(c), opt_ns(s), opt_ns(e), l.parse(), b.parse()) else { return "bad-case".into() };
+            e2el_case(c, s, e, l, b)
         }
         ["seq", cs, sops, eops, l] => {
             let cs: Option<Vec<u128>> = if *cs == "-" { Some(vec![]) } else { cs.split(',').map(|x| x.parse().ok()).collect() };
@@ -1200,6 +1218,343 @@ pub fn gen_more(tier: &str, rng: &mut Rng) -> Vec<String> {
         }
         let ctok = if cs.is_empty() { "-".to_string() } else { cs.iter().map(|c| c.to_string()).collect::<Vec<_>>().join(",") };
         out.push(format!("seq {} {} {} {}", ctok, so, eo, l));
+    }
+    out
+}
+
+// ===== late poll: the caller dispatches a call and first polls its response future `busy` later =====
+//   runl <caller> <configured ns|none> <latency ns|never> <busy ns>
+//     the `GrpcTimeout` middleware (hook) under `RecoverError`, used through the tower `Service` API:
+//     `ready().await`, `call(req)` (= dispatch, time 0), `sleep(busy).await`, then the future is awaited.
+//     The wrapped service's answer is due `latency` after DISPATCH (its `Sleep` is created inside
+//     `call`, like hyper's `send_request`, which sends at once and hands back a receiver).
+//   clil <silent|routes> <caller> <Endpoint::timeout ns|none> <latency ns|never> <busy ns>
+//     a real `Channel` used as a `tower::Service`: `poll_ready`, `call` (the buffer's worker runs the
+//     client stack, incl. `GrpcTimeout::call`, and sends the request while the caller is busy),
+//     `sleep(busy).await`, then the response future is awaited and the reply read to its end.
+//   e2el <caller> <Server::timeout> <Endpoint::timeout> <handler latency ns> <busy ns>
+//     the same caller against a real `transport::Server`.
+// observed: `inner <t>` | `timeout <code> <hex message> <t>` | `pending`; `t` = virtual ns from
+// dispatch to the moment the caller has the outcome.
+
+fn runl_case(c: Caller, s: Option<u128>, latency: Option<u128>, busy: u128) -> String {
+    let mut treq = tonic::Request::new(());
+    if !c.apply(&mut treq) {
+        return "not-a-header-value".into();
+    }
+    let rt = paused_rt();
+    rt.block_on(async move {
+        let inner = tower::service_fn(move |_req: http::Request<()>| {
+            // created in `call`: the answer is due `latency` after dispatch, polled or not
+            let due = latency.map(|l| tokio::time::sleep(dur(l)));
+            async move {
+                match due {
+                    Some(d) => d.await,
+                    None => std::future::pending::<()>().await,
+                }
+                Ok::<_, tonic::Status>(http::Response::new(()))
+            }
+        });
+        let mut svc = tonic::service::RecoverError::new(GrpcTimeoutHook::new(inner, s.map(dur)));
+        let mut req = http::Request::new(());
+        *req.headers_mut() = treq.metadata().clone().into_headers();
+        let svc = svc.ready().await.unwrap();
+        let start = tokio::time::Instant::now();
+        let fut = svc.call(req);
+        if busy > 0 {
+            tokio::time::sleep(dur(busy)).await;
+        }
+        match tokio::time::timeout(HORIZON, fut).await {
+            Err(_) => "pending".into(),
+            Ok(Ok(resp)) => {
+                let t = start.elapsed().as_nanos();
+                match tonic::Status::from_header_map(resp.headers()) {
+                    None => format!("inner {}", t),
+                    Some(st) => format!("timeout {} {} {}", st.code() as i32, hex(st.message().as_bytes()), t),
+                }
+            }
+            Ok(Err(e)) => {
+                let st = tonic::Status::from_error(e);
+                format!("unrecovered {} {} {}", st.code() as i32, hex(st.message().as_bytes()), start.elapsed().as_nanos())
+            }
+        }
+    })
+}
+
+/// The caller of `clil` / `e2el`: tower `Service` API on a `Channel`, busy between `call` and the
+/// first poll of the response future.
+async fn late_caller(mut channel: tonic::transport::Channel, headers: HeaderMap, busy: u128) -> String {
+    use http_body_util::BodyExt;
+    let body = tonic::body::Body::new(http_body_util::Full::new(bytes::Bytes::from_static(&[0, 0, 0, 0, 1, 1])));
+    let mut req = http::Request::builder()
+        .method("POST")
+        .uri("http://[::]:50051/verif.Sleep/Unary")
+        .header("content-type", "application/grpc")
+        .header("te", "trailers")
+        .body(body)
+        .unwrap();
+    for (k, v) in headers.iter() {
+        req.headers_mut().append(k.clone(), v.clone());
+    }
+    let fut = async {
+        if std::future::poll_fn(|cx| channel.poll_ready(cx)).await.is_err() {
+            return "not-ready".to_string();
+        }
+        let start = tokio::time::Instant::now();
+        let call = channel.call(req);
+        if busy > 0 {
+            tokio::time::sleep(dur(busy)).await;
+        }
+        let status = match call.await {
+            Err(e) => Some(tonic::Status::from_error(Box::new(e))),
+            Ok(resp) => {
+                let (parts, body) = resp.into_parts();
+                match tonic::Status::from_header_map(&parts.headers) {
+                    // trailers-only reply: the status is in the head
+                    Some(st) => Some(st),
+                    None => match body.collect().await {
+                        Ok(c) => c.trailers().and_then(tonic::Status::from_header_map),
+                        Err(st) => Some(st),
+                    },
+                }
+            }
+        };
+        let t = start.elapsed().as_nanos();
+        match status {
+            Some(st) if st.code() == tonic::Code::Ok => format!("inner {}", t),
+            Some(st) => format!("timeout {} {} {}", st.code() as i32, hex(st.message().as_bytes()), t),
+            None => format!("no-status {}", t),
+        }
+    };
+    match tokio::time::timeout(HORIZON, fut).await {
+        Ok(o) => o,
+        Err(_) => "pending".to_string(),
+    }
+}
+
+fn clil_case(peer: Peer, c: Caller, e: Option<u128>, latency: Option<u128>, busy: u128) -> String {
+    let mut treq = tonic::Request::new(());
+    if !c.apply(&mut treq) {
+        return "not-a-header-value".into();
+    }
+    let headers = treq.metadata().clone().into_headers();
+    let rt = paused_rt();
+    rt.block_on(async move {
+        let (cli, srv) = tokio::io::duplex(64 * 1024);
+        match peer {
+            Peer::Silent => drop(tokio::spawn(bare_h2_peer(srv, false, latency))),
+            Peer::Stall => drop(tokio::spawn(bare_h2_peer(srv, true, latency))),
+            Peer::Routes => drop(tokio::spawn(routes_peer(srv, latency))),
+        }
+        let mut ep = tonic::transport::Endpoint::from_static("http://[::]:50051");
+        if let Some(e) = e {
+            ep = ep.timeout(dur(e));
+        }
+        let mut cli = Some(cli);
+        let channel = match ep
+            .connect_with_connector(tower::service_fn(move |_: http::Uri| {
+                let c = cli.take();
+                async move { c.map(hyper_util::rt::TokioIo::new).ok_or_else(|| std::io::Error::other("used")) }
+            }))
+            .await
+        {
+            Ok(ch) => ch,
+            Err(_) => return "connect-failed".to_string(),
+        };
+        late_caller(channel, headers, busy).await
+    })
+}
+
+fn e2el_case(c: Caller, s: Option<u128>, e: Option<u128>, latency: u128, busy: u128) -> String {
+    let mut treq = tonic::Request::new(());
+    if !c.apply(&mut treq) {
+        return "not-a-header-value".into();
+    }
+    let headers = treq.metadata().clone().into_headers();
+    let rt = paused_rt();
+    rt.block_on(async move {
+        let (cli, srv) = tokio::io::duplex(64 * 1024);
+        let mut builder = tonic::transport::Server::builder();
+        if let Some(s) = s {
+            builder = builder.timeout(dur(s));
+        }
+        let router = builder.add_service(SleepSvc(Some(latency)));
+        let incoming = {
+            use tokio_stream::StreamExt;
+            tokio_stream::iter(vec![Ok::<_, std::io::Error>(DuplexConn(srv))]).chain(tokio_stream::pending())
+        };
+        tokio::spawn(async move {
+            let _ = router.serve_with_incoming(incoming).await;
+        });
+        let mut ep = tonic::transport::Endpoint::from_static("http://[::]:50051");
+        if let Some(e) = e {
+            ep = ep.timeout(dur(e));
+        }
+        let mut cli = Some(cli);
+        let channel = match ep
+            .connect_with_connector(tower::service_fn(move |_: http::Uri| {
+                let c = cli.take();
+                async move { c.map(hyper_util::rt::TokioIo::new).ok_or_else(|| std::io::Error::other("used")) }
+            }))
+            .await
+        {
+            Ok(ch) => ch,
+            Err(_) => return "connect-failed".to_string(),
+        };
+        late_caller(channel, headers, busy).await
+    })
+}
+
+/// `busy` values for one (shortest deadline, latency) pair: 0, inside both, around each boundary
+/// (the instant itself and one timer tick = 1 ms either side), between the two, beyond both.
+fn busy_grid(deadline: Option<u128>, latency: Option<u128>) -> Vec<u128> {
+    let ms = 1_000_000u128;
+    let mut b: Vec<u128> = vec![0, ms];
+    let marks: Vec<u128> = [deadline, latency].into_iter().flatten().collect();
+    for m in &marks {
+        b.push(m / 2 / ms * ms);
+        b.push(m.saturating_sub(ms));
+        b.push(*m);
+        b.push(m + ms);
+    }
+    if let (Some(t), Some(l)) = (deadline, latency) {
+        b.push((t + l) / 2 / ms * ms); // between the two
+    }
+    let top = marks.iter().copied().max().unwrap_or(20 * ms);
+    b.push(top + 50 * ms);
+    b.push(top * 3 + 7 * ms);
+    b.sort();
+    b.dedup();
+    b
+}
+
+/// Instants at which two TASKS act at once, so that what the caller's task finds depends on the
+/// order in which tokio runs them (the spec accepts either result or names the tie-break, the
+/// model predicts one): the reply is due exactly at a deadline (as for `cli` / `e2e`: "the instant
+/// itself is a scheduling race"), or the reply is due exactly when the caller first polls while a
+/// deadline has already passed.  Not generated for the kinds where the reply comes from another
+/// task (`runl` is single-task: every instant is deterministic there and is generated).
+fn racy(deadlines: &[Option<u128>], latency: Option<u128>, busy: u128) -> bool {
+    let Some(l) = latency else { return false };
+    deadlines.iter().flatten().any(|t| *t == l) || (l == busy && deadlines.iter().flatten().any(|t| *t <= busy))
+}
+
+pub fn gen_late(tier: &str, rng: &mut Rng) -> Vec<String> {
+    let thorough = tier == "thorough";
+    let mut out = Vec::new();
+    let ms = 1_000_000u128;
+    // corpus: the witness of seed C09d (timeout 100 ms, answer after 350 ms, caller busy 300 ms) on each kind,
+    // (= the Lean witness of C09_timer_from_first_poll_fails, in ms: timers tick in whole ms)
+    out.push(format!("runl none {} {} {}", 100 * ms, 350 * ms, 300 * ms));
+    out.push(format!("runl {} none {} {}", 100 * ms, 350 * ms, 300 * ms));
+    out.push(format!("clil silent none {} {} {}", 100 * ms, 350 * ms, 300 * ms));
+    out.push(format!("clil routes {} none {} {}", 100 * ms, 350 * ms, 300 * ms));
+    out.push(format!("e2el none none {} {} {}", 100 * ms, 350 * ms, 300 * ms));
+    out.push(format!("e2el none {} none {} {}", 100 * ms, 350 * ms, 300 * ms));
+    let min2 = |a: Option<u128>, b: Option<u128>| [a, b].into_iter().flatten().min();
+    // ---- runl: the middleware alone (no other task involved: every instant is deterministic)
+    let pairs: [(Option<u128>, Option<u128>); 6] = [
+        (None, Some(100 * ms)),
+        (Some(100 * ms), None),
+        (Some(100 * ms), Some(40 * ms)),
+        (Some(40 * ms), Some(100 * ms)),
+        (None, None),
+        (Some(0), None),
+    ];
+    for (c, s) in pairs {
+        let t = min2(c, s);
+        for l in [Some(350 * ms), Some(250 * ms), Some(50 * ms), Some(100 * ms), Some(101 * ms), Some(99 * ms), Some(40 * ms), Some(0), None] {
+            for b in busy_grid(t, l) {
+                out.push(format!("runl {} {} {} {}", opt_tok(c), opt_tok(s), lat_tok(l), b));
+            }
+        }
+    }
+    // malformed / conformant raw header values in front of a late caller
+    for v in [&b"+5S"[..], b"100m", b"00000100m", b"5X"] {
+        for b in [0, 99 * ms, 100 * ms, 200 * ms, 300 * ms, 400 * ms] {
+            out.push(format!("runl {} none {} {}", raw_tok(&[v]), 350 * ms, b));
+            out.push(format!("runl {} {} {} {}", raw_tok(&[v]), 200 * ms, 350 * ms, b));
+        }
+    }
+    // ---- clil / e2el: real stacks
+    let cli_pairs: [(Option<u128>, Option<u128>); 4] =
+        [(None, Some(100 * ms)), (Some(100 * ms), None), (Some(60 * ms), Some(100 * ms)), (None, None)];
+    for (c, e) in cli_pairs {
+        let t = min2(c, e);
+        for l in [Some(350 * ms), Some(250 * ms), Some(50 * ms), None] {
+            for b in busy_grid(t, l) {
+                if racy(&[c, e], l, b) {
+                    continue;
+                }
+                for peer in ["silent", "routes"] {
+                    if thorough || rng.chance(1, 3) {
+                        out.push(format!("clil {} {} {} {} {}", peer, opt_tok(c), opt_tok(e), lat_tok(l), b));
+                    }
+                }
+            }
+        }
+    }
+    let e2e_triples: [(Option<u128>, Option<u128>, Option<u128>); 6] = [
+        (None, Some(100 * ms), None),
+        (None, None, Some(100 * ms)),
+        (Some(100 * ms), None, None),
+        (None, Some(60 * ms), Some(100 * ms)),
+        (None, Some(100 * ms), Some(60 * ms)),
+        (None, None, None),
+    ];
+    for (c, s, e) in e2e_triples {
+        let t = [c, s, e].into_iter().flatten().min();
+        for l in [350 * ms, 250 * ms, 50 * ms] {
+            for b in busy_grid(t, Some(l)) {
+                if racy(&[c, s, e], Some(l), b) {
+                    continue;
+                }
+                if thorough || rng.chance(1, 4) {
+                    out.push(format!("e2el {} {} {} {} {}", opt_tok(c), opt_tok(s), opt_tok(e), l, b));
+                }
+            }
+        }
+    }
+    // ---- random (whole ms): deadlines, latency and busy in every order
+    let nrand = if thorough { 1500 } else { 120 };
+    for _ in 0..nrand {
+        let t = |rng: &mut Rng| -> Option<u128> {
+            if rng.chance(1, 3) {
+                None
+            } else {
+                Some(rng.range(1, 400) as u128 * ms)
+            }
+        };
+        let a = t(rng);
+        let b2 = t(rng);
+        let l = if rng.chance(1, 6) { None } else { Some(rng.below(500) as u128 * ms) };
+        let marks: Vec<u128> = [a, b2, l].into_iter().flatten().collect();
+        let busy = match rng.below(5) {
+            0 => 0,
+            1 if !marks.is_empty() => {
+                // one tick around a boundary
+                let m = *rng.pick(&marks);
+                (m + ms * rng.below(3) as u128).saturating_sub(ms)
+            }
+            _ => rng.below(600) as u128 * ms,
+        };
+        match rng.below(6) {
+            0 | 1 | 2 => out.push(format!("runl {} {} {} {}", opt_tok(a), opt_tok(b2), lat_tok(l), busy)),
+            3 | 4 => {
+                if !racy(&[a, b2], l, busy) {
+                    let peer = *rng.pick(&["silent", "routes"]);
+                    out.push(format!("clil {} {} {} {} {}", peer, opt_tok(a), opt_tok(b2), lat_tok(l), busy));
+                }
+            }
+            _ => {
+                let third = t(rng);
+                if let Some(l) = l {
+                    if !racy(&[a, b2, third], Some(l), busy) {
+                        out.push(format!("e2el {} {} {} {} {}", opt_tok(a), opt_tok(b2), opt_tok(third), l, busy));
+                    }
+                }
+            }
+        }
     }
     out
 }
